@@ -714,6 +714,17 @@ def serverSees (K : Consts) (env : Env) (roots : List Routing.Node) (cfg : Cfg) 
         else if f.method == .action && ownKey != hasEntity then .rejected (K.R.stDecode f.method) true
         else afterRouting K env r f req
 
+/-- the request direction as one function: what the resource side sees of a call -/
+def callSeen (K : Consts) (env : Env) (roots : List Routing.Node) (cfg : Cfg) (r : ResSpec) (c : Call) : Seen :=
+  match clientEncode K env r c with
+  | Option.none => .unmodelled "client-refuses"
+  | some a =>
+    match wireRequest K cfg a with
+    | .ok sent => serverSees K env roots cfg r sent
+    | .clientRefuses => .unmodelled "client-refuses"
+    | .unmodelled w => .unmodelled w
+    | .panic => .panic
+
 /-! ## server: the response -/
 
 structure WireResp where
